@@ -11,10 +11,11 @@ from xknx import XKNX
 from xknx.exceptions import CommunicationError, InvalidSecureConfiguration
 from xknx.io import ConnectionConfig, ConnectionType, GatewayScanFilter, SecureConfig
 from xknx.io.gateway_scanner import GatewayDescriptor
+import xknx.io.knxip_interface as KI
 from xknx.io.knxip_interface import KNXIPInterface
 from xknx.knxip import HPAI, KNXIPFrame, SearchRequest, SearchRequestExtended, SearchResponse, SearchResponseExtended
-from xknx.knxip.dib import DIBDeviceInformation, DIBSecuredServiceFamilies, DIBServiceFamily, DIBSuppSVCFamilies
-from xknx.secure.keyring import InterfaceType, Keyring, XMLInterface
+from xknx.knxip.dib import DIBDeviceInformation, DIBSecuredServiceFamilies, DIBServiceFamily, DIBSuppSVCFamilies, DIBTunnelingInfo, TunnelingSlotStatus
+from xknx.secure.keyring import InterfaceType, Keyring, XMLBackbone, XMLInterface
 from xknx.telegram import IndividualAddress
 
 from ..runner import Ctx, Part, exc_sig
@@ -66,6 +67,9 @@ def frames(gw: dict[str, Any], ip: str, ia: str) -> dict[str, bytes]:
             ext.dibs.append(sec)
         else:
             ext.dibs.insert(0, sec)
+    if gw["tun"]:
+        # two tunnelling slots: the first free, the second in use
+        ext.dibs.append(DIBTunnelingInfo({IndividualAddress("1.0.240"): TunnelingSlotStatus(True, False, True), IndividualAddress("1.0.241"): TunnelingSlotStatus(True, False, False)}))
     return {"plain": KNXIPFrame.init_from_body(plain).to_knx(), "ext": KNXIPFrame.init_from_body(ext).to_knx()}
 
 
@@ -73,20 +77,31 @@ def filters() -> list[tuple[bool, ...]]:
     return list(itertools.product((False, True), repeat=5))
 
 
-SECURE_CONFIGS = ["none", "credentials", "keyring-host-match", "keyring-host-mismatch", "keyring-host-match+credentials", "keyring-ia-of-this-host", "keyring-ia-of-other-host", "keyring-ia-unknown"]
+SECURE_CONFIGS = ["none", "credentials", "keyring-host-match", "keyring-host-mismatch", "keyring-host-match+credentials", "keyring-ia-of-this-host", "keyring-ia-of-other-host", "keyring-ia-unknown",
+                  "keyring-free-slot-without-credentials", "keyring-ia-without-credentials"]
+BACKBONE_KEY = bytes(range(16))
 
 
-def keyring_for(host: str) -> Keyring:
+def keyring_for(host: str, first_has_credentials: bool = True) -> Keyring:
+    """Two tunnel interfaces of `host` (1.0.240 with user 2, 1.0.241 with user 3) and a backbone key; ETS also exports
+    interfaces without UserID/Password (tunnels not secured in the project) - `first_has_credentials=False`."""
     kr = Keyring()
-    itf = XMLInterface()
-    itf.type = InterfaceType.TUNNELING
-    itf.individual_address = IndividualAddress("1.0.240")
-    itf.host = IndividualAddress(host)
-    itf.user_id = 2
-    itf.decrypted_password = "pw"
-    itf.decrypted_authentication = "auth"
-    itf.group_addresses = {}
-    kr.interfaces.append(itf)
+    for i, (ia, uid) in enumerate((("1.0.240", 2), ("1.0.241", 3))):
+        itf = XMLInterface()
+        itf.type = InterfaceType.TUNNELING
+        itf.individual_address = IndividualAddress(ia)
+        itf.host = IndividualAddress(host)
+        if i or first_has_credentials:
+            itf.user_id = uid
+            itf.decrypted_password = f"pw{uid}"
+            itf.decrypted_authentication = "auth"
+        itf.group_addresses = {}
+        kr.interfaces.append(itf)
+    bb = XMLBackbone()
+    bb.decrypted_key = BACKBONE_KEY
+    bb.latency = 1000
+    bb.multicast_address = "224.0.23.12"
+    kr.backbone = bb
     return kr
 
 
@@ -94,7 +109,9 @@ def secure_config(kind: str) -> SecureConfig | None:
     if kind == "none":
         return None
     if kind == "credentials":
-        return SecureConfig(user_id=2, user_password="pw", device_authentication_password="auth")
+        return SecureConfig(user_id=2, user_password="pw", device_authentication_password="auth", backbone_key=BACKBONE_KEY.hex())
+    if kind in ("keyring-free-slot-without-credentials", "keyring-ia-without-credentials"):
+        return SecureConfig(keyring=keyring_for("1.0.1", first_has_credentials=False))
     if kind == "keyring-host-match":
         return SecureConfig(keyring=keyring_for("1.0.1"))
     if kind == "keyring-host-mismatch":
@@ -106,33 +123,54 @@ def secure_config(kind: str) -> SecureConfig | None:
     return SecureConfig(keyring=keyring_for("1.0.1"), user_id=2, user_password="pw", device_authentication_password="auth")
 
 
-class RecordingInterface(KNXIPInterface):
-    """The real interface with its five connection starters replaced by recorders (the decision logic is untouched)."""
+class Recorder:
+    """What the real connection starters tried to open: (kind, gateway ip, constructor arguments)."""
 
-    calls: list[tuple[str, str | None]]
-    fail: set[str]
+    def __init__(self) -> None:
+        self.calls: list[tuple[str, str | None]] = []
+        self.args: list[dict[str, Any]] = []
+        self.fail: set[str] = set()
 
-    async def _start_tunnelling_udp(self, gateway_ip: str, gateway_port: int, local_ip: str | None = None) -> None:  # type: ignore[override]
-        self._rec("tunnelling_udp", gateway_ip)
-
-    async def _start_tunnelling_tcp(self, gateway_ip: str, gateway_port: int) -> None:  # type: ignore[override]
-        self._rec("tunnelling_tcp", gateway_ip)
-
-    async def _start_secure_tunnelling_tcp(self, gateway_ip: str, gateway_port: int, gateway_descriptor: Any = None, keyring: Any = None) -> None:  # type: ignore[override]
-        if self.connection_config.secure_config is None:
-            raise InvalidSecureConfiguration("SecureConfig missing in ConnectionConfig")  # as the real starter does
-        self._rec("secure_tunnelling_tcp", gateway_ip)
-
-    async def _start_routing(self, local_ip: str | None = None) -> None:  # type: ignore[override]
-        self._rec("routing", None)
-
-    async def _start_secure_routing(self, local_ip: str | None = None, keyring: Any = None) -> None:  # type: ignore[override]
-        self._rec("secure_routing", None)
-
-    def _rec(self, kind: str, ip: str | None) -> None:
+    def rec(self, kind: str, ip: str | None, kw: dict[str, Any]) -> None:
         self.calls.append((kind, ip))
+        self.args.append(kw)
         if f"{kind}@{ip}" in self.fail or kind in self.fail:
             raise CommunicationError("unreachable")
+
+
+REC = Recorder()
+
+
+def fake_connection(kind: str) -> type:
+    """Stands in for UDPTunnel / TCPTunnel / SecureTunnel / Routing / SecureRouting inside xknx.io.knxip_interface: the real
+    _start_* methods (credential and keyring selection included) run, only the socket level is replaced by a record."""
+
+    class Conn:
+        def __init__(self, xknx: Any, **kw: Any) -> None:
+            self.kw = kw
+
+        async def connect(self) -> None:
+            REC.rec(kind, self.kw.get("gateway_ip"), self.kw)
+
+        async def disconnect(self) -> None:
+            return None
+
+    Conn.__name__ = "Fake_" + kind
+    return Conn
+
+
+FAKES = {"UDPTunnel": "tunnelling_udp", "TCPTunnel": "tunnelling_tcp", "SecureTunnel": "secure_tunnelling_tcp", "Routing": "routing", "SecureRouting": "secure_routing"}
+
+
+class patched_connections:
+    def __enter__(self) -> None:
+        self.saved = {n: getattr(KI, n) for n in FAKES}
+        for n, kind in FAKES.items():
+            setattr(KI, n, fake_connection(kind))
+
+    def __exit__(self, *a: Any) -> None:
+        for n, v in self.saved.items():
+            setattr(KI, n, v)
 
 
 def run_case(gws: tuple[int, ...], flt: tuple[bool, ...], sc: str, fail_first: bool = False) -> tuple[list[tuple[str, str]], str]:
@@ -140,16 +178,16 @@ def run_case(gws: tuple[int, ...], flt: tuple[bool, ...], sc: str, fail_first: b
     viols: list[tuple[str, str]] = []
     allg = gateways()
     specs = [allg[g] for g in gws]
-    with World() as w:
+    global REC
+    REC = Recorder()
+    with World() as w, patched_connections():
         loop = w.loop
         xknx = XKNX()
         try:
             f = GatewayScanFilter(tunnelling=flt[0], tunnelling_tcp=flt[1], routing=flt[2], secure_tunnelling=flt[3], secure_routing=flt[4])
-            ia = {"keyring-ia-of-this-host": "1.0.240", "keyring-ia-of-other-host": "1.0.240", "keyring-ia-unknown": "1.0.99"}.get(sc)
+            ia = {"keyring-ia-of-this-host": "1.0.240", "keyring-ia-of-other-host": "1.0.240", "keyring-ia-unknown": "1.0.99", "keyring-ia-without-credentials": "1.0.240"}.get(sc)
             cfg = ConnectionConfig(connection_type=ConnectionType.AUTOMATIC, local_ip="192.168.1.5", scan_filter=f, secure_config=secure_config(sc), individual_address=ia)
-            iface = RecordingInterface(xknx, cfg)
-            iface.calls = []
-            iface.fail = set()
+            iface = KNXIPInterface(xknx, cfg)
             ips = [f"192.168.1.{10 + i}" for i in range(len(specs))]
             ias = ["1.0.1", "1.0.2"]
             wire = [frames(g, ip, ia) for g, ip, ia in zip(specs, ips, ias)]
@@ -172,14 +210,14 @@ def run_case(gws: tuple[int, ...], flt: tuple[bool, ...], sc: str, fail_first: b
 
             loop.on_endpoint = on_endpoint
             if fail_first:
-                iface.fail = {"tunnelling_udp@" + ips[0], "tunnelling_tcp@" + ips[0], "secure_tunnelling_tcp@" + ips[0], "routing"}
+                REC.fail = {"tunnelling_udp@" + ips[0], "tunnelling_tcp@" + ips[0], "secure_tunnelling_tcp@" + ips[0], "routing"}
             t = w.spawn(iface.start(), name="harness-start")
             loop.run_until(loop.time() + 10)
             outcome = "pending"
             if t.done():
                 exc = texc(t)
                 if exc is None:
-                    outcome = "connected:" + (iface.calls[-1][0] if iface.calls else "nothing")
+                    outcome = "connected:" + (REC.calls[-1][0] if REC.calls else "nothing")
                 elif isinstance(exc, CommunicationError):
                     outcome = "no-usable-gateway"
                 else:
@@ -188,9 +226,9 @@ def run_case(gws: tuple[int, ...], flt: tuple[bool, ...], sc: str, fail_first: b
                         viols.append((exc_sig("start-escape", exc), f"{exc!r}"))
             else:
                 viols.append(("automatic-start-hangs", "start() not finished after 10 s of virtual time"))
-            ctxs = f"gateways={specs} filter(tunnelling,tcp,routing,secure_tunnelling,secure_routing)={flt} secure_config={sc} calls={iface.calls}"
+            ctxs = f"gateways={specs} filter(tunnelling,tcp,routing,secure_tunnelling,secure_routing)={flt} secure_config={sc} calls={REC.calls}"
             by_ip = dict(zip(ips, specs))
-            for kind, ip in iface.calls:
+            for kind, ip in REC.calls:
                 if kind in ("tunnelling_udp", "tunnelling_tcp"):
                     g = by_ip[ip]  # type: ignore[index]
                     if g["secured"] and T in g["secured"]:
@@ -207,14 +245,21 @@ def run_case(gws: tuple[int, ...], flt: tuple[bool, ...], sc: str, fail_first: b
                     if not (g["secured"] and T in g["secured"]):
                         viols.append(("secure-tunnel-to-gateway-not-announcing-it", ctxs))
             # the keyring host filter: nothing is opened to a gateway whose address the keyring does not list
-            if sc in ("keyring-host-mismatch", "keyring-ia-of-other-host", "keyring-ia-unknown") and iface.calls:
+            if sc in ("keyring-host-mismatch", "keyring-ia-of-other-host", "keyring-ia-unknown") and REC.calls:
                 viols.append(("connection-to-gateway-outside-keyring", ctxs))
-            if sc.startswith("keyring-host-match") or sc == "keyring-ia-of-this-host":
-                for kind, ip in iface.calls:
+            if sc.startswith("keyring-host-match") or sc in ("keyring-ia-of-this-host", "keyring-free-slot-without-credentials", "keyring-ia-without-credentials"):
+                for kind, ip in REC.calls:
                     if ip is not None and ip != ips[0]:
                         viols.append(("connection-to-gateway-outside-keyring", ctxs))
+            # a secure tunnel opened from a keyring alone uses the credentials of one of that host's interfaces: the configured
+            # address, else the first slot the gateway announces as free
+            for (kind, ip), kw in zip(REC.calls, REC.args):
+                if kind == "secure_tunnelling_tcp" and sc.startswith("keyring") and "+credentials" not in sc:
+                    want = {"keyring-free-slot-without-credentials": None, "keyring-ia-without-credentials": None}.get(sc, (2, "pw2"))
+                    if want is None or (kw.get("user_id"), kw.get("user_password")) != want:
+                        viols.append(("secure-tunnel-with-credentials-the-keyring-does-not-give-for-that-slot", f"user_id={kw.get('user_id')} {ctxs}"))
             # the scan filter: a gateway that is connected to must have matched it (reference predicate)
-            for kind, ip in iface.calls:
+            for kind, ip in REC.calls:
                 if ip is None:
                     continue
                 g = by_ip[ip]
@@ -322,10 +367,10 @@ def worker(k: int, n: int, thorough: bool) -> Part:
 def run(ctx: Ctx) -> None:
     ng = len(gateways())
     ctx.rule = (
-        f"(a) the real KNXIPInterface.start() in automatic mode (the five connection starters replaced by recorders in a subclass; GatewayScanner, UDP transport, frame parsing, parse_dibs, scan filter and "
-        f"_start_automatic are the real code) on the virtual loop against simulated gateways: ALL {ng} capability announcements (core 1/2 x tunnelling absent/v1/v2 x routing x security family x secured-families DIB "
-        "absent/empty/tunnelling/routing/both x both DIB orders x answer mode plain/extended/both in either order) x ALL 32 scan-filter flag sets x 8 secure configurations (none, credentials, keyring listing "
-        "the gateway, keyring listing another host, keyring + credentials, keyring + a tunnel address of this / another / no host); pairs of gateways with the first unreachable or not. Oracle: no plain tunnel (UDP/TCP) to a gateway whose secured-families DIB lists "
+        f"(a) the real KNXIPInterface.start() in automatic mode (only the five connection classes are replaced by recorders of connect(): the connection starters with their credential / keyring-slot selection, GatewayScanner, UDP transport, frame parsing, parse_dibs, "
+        f"scan filter and _start_automatic are the real code) on the virtual loop against simulated gateways: ALL {ng} capability announcements (core 1/2 x tunnelling absent/v1/v2 x routing x security family x secured-families DIB "
+        "absent/empty/tunnelling/routing/both x both DIB orders x answer mode plain/extended/both in either order) x ALL 32 scan-filter flag sets x 10 secure configurations (none, credentials, keyring listing "
+        "the gateway, keyring listing another host, keyring + credentials, keyring + a tunnel address of this / another / no host, keyring whose first free slot / whose configured tunnel address is exported without credentials); pairs of gateways with the first unreachable or not. Oracle: no plain tunnel (UDP/TCP) to a gateway whose secured-families DIB lists "
         "tunnelling, no plain routing when every router lists routing as secured, nothing outside the keyring's hosts, nothing the filter excludes. (b) GatewayScanFilter.match = the statement's predicate on the "
         "descriptors parsed from all those announcements x 32 filters x name filter."
     )
